@@ -45,9 +45,32 @@ def read_list(path, enc):
     return out
 
 
+def _sigma(v):
+    return v.replace('\u03c2', '\u03c3')
+
+
 def check_list(case, rel, items, counts, total=None):
     """items: [(value, prob_text)] read from disk; counts: {value: count}."""
     total = sum(counts.values()) if total is None else total
+    if rel.startswith(('Alpha/', 'Emails/')) and (any('\u03c2' in v or '\u03c3' in v for v, _ in items) or any('\u03c2' in v or '\u03c3' in v for v in counts)):
+        # Greek final sigma: lower-casing a whole section and lower-casing one word can spell the same word with sigma or final
+        # sigma; both spellings are accepted and compared merged
+        merged_c = Counter()
+        for v, c in counts.items():
+            merged_c[_sigma(v)] += c
+        merged_p = Counter()
+        prev = None
+        for v, ptxt in items:
+            merged_p[_sigma(v)] += float(ptxt)
+            if prev is not None and float(ptxt) > prev:
+                raise Violation('list_order', f'{rel}: {v!r} is listed after a less probable item', case)
+            prev = float(ptxt)
+        if set(merged_p) != set(merged_c):
+            raise Violation('list_items', f'{rel}: items on disk {sorted(merged_p)[:5]} differ from the tallies {sorted(merged_c)[:5]}', case)
+        for v, c in merged_c.items():
+            if abs(merged_p[v] - c / total) > 8 * 2.0 ** -52:
+                raise Violation('list_probability', f'{rel}: {v!r} has probability {merged_p[v]!r}, its count/total is {c}/{total}', case)
+        return
     vals = [v for v, _ in items]
     if Counter(vals) != Counter(counts.keys()):
         a, b = Counter(vals), Counter(counts.keys())
@@ -257,7 +280,16 @@ def run_sub(rec, seed, shard, nshards, tier):
     core.hyp_run(rec, prop_sub, sub_cases(), n, seed, shrink=(tier == 'thorough'))
 
 
+SIGMA_CASE = {'entries': [['\u039b\u038c\u0393\u039f\u03a3:Pass', 1], ['\u03bb\u03cc\u03b3\u03bf\u03c2', 2], ['password1', 6], ['monkey12', 5], ['iloveyou', 5]],
+              'coverage': 0.6, 'ngram': 2, 'alphabet_size': 100}
+
+
+def run_regress(rec, seed, shard, nshards, tier):
+    prop(SIGMA_CASE, rec)
+
+
 PARTS = [
+    Part('regression_final_sigma', run_regress, prop, {'quick': 1, 'thorough': 1}),
     Part('relative_frequency', run_main, prop, {'quick': 8, 'thorough': 16}),
     Part('subprocess_determinism', run_sub, prop_sub, {'quick': 4, 'thorough': 8}),
 ]
